@@ -176,6 +176,31 @@ def read_element_abund(files, macros):
     return res
 
 
+def read_hnuclei(files, macros, ea):
+    """GetHNuclei (the hydrogen total Renorm / SetReferenceAbund normalise by) -> polynomial in y, or None when the
+    helper is the '#else return 0.0' branch (no IDX_ELEM_H)"""
+    src = files.get("src/naunet_physics.cpp")
+    if src is None or "IDX_ELEM_H" not in macros.text:
+        return None
+    txt = preprocess(src, macros, Macros())
+    body = find_function_body(txt, r"\bGetHNuclei\s*\(")
+    rets = []
+    for n in split_statements(body):
+        if n[0] != "stmt":
+            raise HarnessError(f"GetHNuclei: node {n[0]}")
+        k = classify(n[1])
+        if k[0] == "return":
+            rets.append(k[1])
+        elif k[0] not in ("decl", "call"):
+            raise HarnessError(f"GetHNuclei: {n[1]!r}")
+    if len(rets) != 1:
+        raise HarnessError(f"GetHNuclei: {len(rets)} return statements")
+    m = re.fullmatch(r"\s*GetElementAbund\s*\(\s*y\s*,\s*(\w+)\s*\)\s*", rets[0])
+    if m:
+        return ea.get(macros.value(m.group(1)) if not m.group(1).isdigit() else int(m.group(1)))
+    return P.to_poly(parse_expr(rets[0]), macros.as_dict())
+
+
 def run_case(desc):
     from ..harness.render import render, reset_globals
 
@@ -248,6 +273,13 @@ def run_case(desc):
                 if got is None or got != exp:
                     viols.append((f"C04:GetElementAbund", f"element {el}: helper returns {P.show(got) if got is not None else None}, count-weighted sum is {P.show(exp)}", label))
                     break
+                if el == "H":
+                    # the hydrogen total has a helper of its own (the normalisation of Renorm / SetReferenceAbund)
+                    hn = read_hnuclei(files, ot.macros, ea)
+                    nchk += 1
+                    if hn is None or hn != exp:
+                        viols.append((f"C04:GetHNuclei", f"helper GetHNuclei returns {P.show(hn) if hn is not None else None}, the count-weighted hydrogen total is {P.show(exp)}", label))
+                        break
     return 2, viols, nchk
 
 
